@@ -55,14 +55,20 @@ AddFlagAllowed(pre, post, x) ==
 
 ---------------------------------------------------------------------------
 (* a sync, replayed call by call in the implementation's order *)
-Acc0 == [st |-> InitState, bad |-> {}, attempted |-> {}, denied |-> {}, aborted |-> FALSE, allok |-> TRUE, anyerr |-> FALSE]
+Acc0 == [st |-> InitState, bad |-> {}, attempted |-> {}, denied |-> {}, pruned |-> {}, aborted |-> FALSE, allok |-> TRUE, anyerr |-> FALSE]
 RECURSIVE Replay(_, _, _, _)
 Replay(s, called, rs, acc) ==
   IF rs = <<>>
   THEN [acc EXCEPT !.st = s, !.bad = @ \cup F("rpc-seq", NextCalls(s, called, acc.aborted) = {})]     \* nothing may be missing
   ELSE LET r == Head(rs)
            c == Call(r.m, r.k, r.id)
-       IN IF c \notin NextCalls(s, called, acc.aborted)
+       IN IF c.m = "dereg" /\ c.k = "c" /\ c.id \in acc.pruned /\ c \notin called /\ ~Has(s.chks, c.id)
+             /\ ({SvcCall(s, id) : id \in PendSvcs(s)} \ called) = {}
+          THEN \* the specification is silent on whether a check removed by the cascade of its service is dropped at
+               \* once or deregistered on its own later in the same pass: accept the extra call (it changes nothing)
+               Replay(IF Cls(r.got) = "ok" THEN DeregChk(s, c.id) ELSE s, called \cup {c}, Tail(rs),
+                      [acc EXCEPT !.allok = @ /\ Cls(r.got) = "ok", !.anyerr = @ \/ Cls(r.got) = "err"])
+          ELSE IF c \notin NextCalls(s, called, acc.aborted)
           THEN [acc EXCEPT !.st = s, !.bad = @ \cup {"rpc-seq"}]                                        \* a call the code sections do not make here
           ELSE LET g == Cls(r.got)
                    shape == /\ (c.k = "s" /\ c.m = "reg" => ToSet(r.piggy) = Piggy(s, c.id))
@@ -72,6 +78,7 @@ Replay(s, called, rs, acc) ==
                IN Replay(ApplyRpc(s, c, g), called \cup {c}, Tail(rs),
                          [acc EXCEPT !.bad = @ \cup F("rpc-shape", shape) \cup F("rpc-got", g = Got(s, c, r.inj)),
                                      !.attempted = @ \cup cov,
+                                     !.pruned = IF c.k = "s" /\ c.m = "dereg" /\ g = "ok" THEN @ \cup PrunedBy(s, c.id) ELSE @,
                                      !.denied = IF g = "denied" THEN @ \cup cov ELSE @,
                                      !.aborted = c.k = "n" /\ g = "err",
                                      !.allok = @ /\ g = "ok",
@@ -115,7 +122,7 @@ CmdJudge(pre, post, e) ==
   IN
      F("res", e.res.t = exp.res)
   \cup F("local-state", LocalViewLoose(exp.st, post, loose))
-  \cup F("add-flag", \A x \in loose : AddFlagAllowed(pre, post, x))
+  \cup F("add-flag", e.res.t = "ok" => \A x \in loose : AddFlagAllowed(pre, post, x))
   \cup F("remote-state", RemoteView(exp.st, post))
   \cup F("NoFalseInSync", NoFalseInSync(pre, post, FALSE, {}))
   \cup F("DeregNotForgotten", DeregNotForgotten(pre, post, loose))
